@@ -14,6 +14,7 @@ def unit(u) -> Stats:
         return instance_unit(u)
     n, games, comp, gap_name, budget, tag, depth = u[:7]
     known_extra = u[7] if len(u) > 7 else ()
+    snap = u[8] if len(u) > 8 else "deepcopy"
     ftol = 0.0
     resolved = []
     for g in games:
@@ -25,7 +26,7 @@ def unit(u) -> Stats:
             resolved.append(g)
     st = Stats()
     cfg = EnvCfg(n, resolved, comp, gap_name, budget, tag, ftol, known_extra)
-    explore_env(st, cfg, "reference", max_depth=depth)
+    explore_env(st, cfg, "reference", max_depth=depth, snap=snap)
     st.traces += 1
     if n == 3 and tag == "exact3" and comp == "superadditive" and gap_name == "l1_norm" and budget is None:
         st.sample({"n": n, "hidden_games": [list(g) for g in resolved], "computer": comp, "gap": gap_name, "ops": ["step(a)", "unstep(a)", "reset"],
@@ -99,6 +100,9 @@ def units(run: Run):
         for gap_name in gaps.NAMES:
             for budget in (None, 1, 2, 3):
                 us.append((3, script3, comp, gap_name, budget, "exact3", None))
+    # every state carried over by a pickle round trip (what a pool worker receives in evaluate()), SA and SAM computers
+    for k, (comp, gap_name, budget) in enumerate(((SA[0], "l1_norm", None), (SA[1], "exploitability", 2), ("sam_apx_1", "linf_norm", None))):
+        us.append((3, script3 if k < 2 else [tuple([0] * 8)], comp, gap_name, budget, "exact3-pickled", None, (), "pickle"))
     sam3 = A.a3_sam()
     script3s = [sam3[(31 * (seed + 1)) % len(sam3)], A.shifted(sam3[(57 * (seed + 2)) % len(sam3)], (-1, -2, 0)), tuple([0] * 8)]
     for comp in ("sam_apx_1", "sam_apx_10", "sam_apx_100"):
